@@ -5,7 +5,7 @@
 use peginator::{
     parse_Whitespace, parse_char, parse_character_literal, parse_character_literal_insensitive,
     parse_character_range, parse_end_of_input, parse_string_literal, parse_string_literal_insensitive,
-    ChoiceHelper, ParseError, ParseErrorSpecifics, ParseOk, ParseResult, ParseSettings, ParseState,
+    CacheEntries, ChoiceHelper, ParseError, ParseErrorSpecifics, ParseOk, ParseResult, ParseSettings, ParseState,
 };
 
 /// source of nondeterminism: kani::any() under Kani, recorded bytes natively
@@ -46,6 +46,9 @@ pub struct Case {
     pub lit: [u8; 3],
     pub lit_len: usize,
     pub n: usize,
+    pub k1: usize,
+    pub k2: usize,
+    pub k3: usize,
 }
 
 impl Case {
@@ -60,7 +63,8 @@ impl Case {
         let lit = [s.byte(), s.byte(), s.byte()];
         let lit_len = s.size(); s.assume(lit_len <= 3);
         let n = s.size(); s.assume(n <= MAXLEN + 1);
-        Case { buf, len, start, far: if has_far { Some(farp) } else { None }, c, c2, lit, lit_len, n }
+        let (k1, k2, k3) = (s.size(), s.size(), s.size());
+        Case { buf, len, start, far: if has_far { Some(farp) } else { None }, c, c2, lit, lit_len, n, k1, k2, k3 }
     }
     pub fn input(&self) -> Option<&str> { core::str::from_utf8(&self.buf[..self.len]).ok() }
     pub fn literal(&self) -> Option<&str> { core::str::from_utf8(&self.lit[..self.lit_len]).ok() }
@@ -324,7 +328,35 @@ pub fn check_choice_helper(case: &Case) -> R {
     }
 }
 
+/// ParseState::first_n_chars (used by the tracer): the first n characters, never a panic
+pub fn check_first_n_chars(case: &Case) -> R {
+    setup!(case, input, st);
+    let got = st.first_n_chars(case.n);
+    let want: String = input[case.start..].chars().take(case.n).collect();
+    if got != want { return Err("first_n_chars is not the first n characters of the remaining input"); }
+    Ok(())
+}
+
+/// the memo table (`CacheEntries`) behaves as a map from absolute offsets to results: an entry stays until the
+/// same key is inserted again, whatever other keys are inserted (C05, C06 rely on it)
+pub fn check_cache_map(case: &Case) -> R {
+    setup!(case, input, st);
+    let (k1, k2, k3) = (case.k1, case.k2, case.k3);
+    let mut c: CacheEntries<u8> = Default::default();
+    if c.get(&k1).is_some() { return Err("a fresh cache is not empty"); }
+    c.insert(k1, Ok(ParseOk { result: 1u8, state: st.clone() }));
+    c.insert(k2, Err(ParseError { position: 7, specifics: ParseErrorSpecifics::ExpectedEoi }));
+    match c.get(&k2) { Some(Err(e)) if e.position == 7 => {}, _ => return Err("the entry just inserted is not returned") }
+    if k1 != k2 {
+        match c.get(&k1) { Some(Ok(ok)) if ok.result == 1 && ok.state.cache_key() == case.start => {}, _ => return Err("inserting another position evicted or changed an entry") }
+    }
+    if k3 != k1 && k3 != k2 && c.get(&k3).is_some() { return Err("a position that was never inserted is found in the cache"); }
+    Ok(())
+}
+
 pub const CHECKS: &[(&str, fn(&Case) -> R)] = &[
+    ("ParseState::first_n_chars", check_first_n_chars),
+    ("CacheEntries", check_cache_map),
     ("parse_char", check_parse_char),
     ("parse_Whitespace", check_parse_whitespace),
     ("parse_string_literal", check_parse_string_literal),
@@ -375,4 +407,6 @@ mod proofs {
     twin!(twin_slice_until, check_slice_range_until);
     twin!(twin_record_error, check_record_report);
     twin!(twin_choice_helper, check_choice_helper);
+    twin!(twin_first_n_chars, check_first_n_chars);
+    twin!(twin_cache_map, check_cache_map);
 }
